@@ -49,6 +49,7 @@ e0ba138:C09
 e53eedd:C08
 aa19a68:C16
 0072067:C01,C02
+aaea8f1:C01
 "
 [ -n "$REVERT_ONLY" ] && PAIRS="$REVERT_ONLY"
 for pair in $PAIRS; do
